@@ -2,8 +2,11 @@ pub mod c03;
 pub mod c04;
 pub mod c12;
 pub mod c10;
+pub mod c11;
 pub mod c16;
 pub mod c17;
+#[cfg(feature = "hash")]
+pub mod c18;
 pub mod util;
 
 use vcore::run::{parse_args, run, CheckFn};
@@ -14,8 +17,11 @@ pub fn lookup(prop: &str) -> Option<CheckFn> {
         "C04" => Some(c04::check),
         "C12" => Some(c12::check),
         "C10" => Some(c10::check),
+        "C11" => Some(c11::check),
         "C16" => Some(c16::check),
         "C17" => Some(c17::check),
+        #[cfg(feature = "hash")]
+        "C18" => Some(c18::check),
         _ => None,
     }
 }
